@@ -57,6 +57,7 @@ func (a *Application) proxyHandler(w http.ResponseWriter, r *http.Request) {
 	// so its StripPrefix is a no-op. This mirrors providerProxyHandler (line 100).
 	r.URL.Path = pr.targetPath
 
+	w = &startedResponseWriter{ResponseWriter: w}
 	err = a.executeProxyRequest(ctx, w, r, endpoints, pr)
 
 	a.logRequestResult(pr, err)
@@ -325,10 +326,35 @@ func (a *Application) writeRoutingRejection(w http.ResponseWriter, pr *proxyRequ
 	return true
 }
 
+// startedResponseWriter remembers whether a status line or body bytes already went
+// out to the client. Unwrap keeps http.ResponseController features such as Flush working.
+type startedResponseWriter struct {
+	http.ResponseWriter
+	started bool
+}
+
+func (s *startedResponseWriter) WriteHeader(statusCode int) {
+	s.started = true
+	s.ResponseWriter.WriteHeader(statusCode)
+}
+
+func (s *startedResponseWriter) Write(b []byte) (int, error) {
+	s.started = true
+	return s.ResponseWriter.Write(b)
+}
+
+func (s *startedResponseWriter) Unwrap() http.ResponseWriter {
+	return s.ResponseWriter
+}
+
 // only send error response if we haven't started streaming yet.
 // content-type check prevents double-writing response after partial stream
 // (learned this the hard way when users got html error messages appended to their json)
+// a backend answer without a content-type is caught by the started flag
 func (a *Application) handleProxyError(w http.ResponseWriter, err error) {
+	if sw, ok := w.(*startedResponseWriter); ok && sw.started {
+		return
+	}
 	if w.Header().Get(constants.HeaderContentType) == "" {
 		http.Error(w, fmt.Sprintf("Proxy error: %v", err), http.StatusBadGateway)
 	}
